@@ -59,8 +59,9 @@ class Batch:
         }
 
 
-class CaseTimeout(Exception):
-    pass
+class CaseTimeout(BaseException):
+    """per-case watchdog; a BaseException so that the oracles' own `except Exception` clauses (which turn a raise of the
+    code under test into an observation) can never mistake the watchdog for a behaviour of the repository"""
 
 
 @contextmanager
